@@ -78,6 +78,16 @@ func TestVerifCSWorker(t *testing.T) {
 type csClassifier func(f zzmc.Failure) (finding string)
 
 // csExplore runs scenario name with at most bound deviations on all cores and merges the results.
+// csRecMu guards what harness threads record after a call has returned: under the coarse focus the tails of two
+// threads can run side by side (a thread that waited on one of the agent's own mutexes resumes on its own).
+var csRecMu sync.Mutex //nolint:gochecknoglobals
+
+func csRec(f func()) {
+	csRecMu.Lock()
+	defer csRecMu.Unlock()
+	f()
+}
+
 func csExplore(c *runCtx, name string, bound int, deadline time.Time, classify csClassifier) zzmc.Stats {
 	st := csExploreOrder(c, name, bound, deadline, classify, "")
 	if !c.quick() && bound > 1 && time.Now().Before(deadline) {
